@@ -18,6 +18,10 @@ claimed = {
          "Every enum/bits member sequence of length <= 4 (thorough: 5 through the API) over a 16-value boundary alphabet incl. 'implicit', with every pattern of repeated names, is driven through NewEnumType/NewBitfield Set/SetNext and through module text + Process, and NameMap/ValueMap/Names/Values/errors are compared with a 30-line fold of RFC 7950 9.6.4.2/9.7.4.2.",
          "Trusted: the reference fold. After the first member the rule rejects only 'an error is reported' is required. Uniqueness of bit positions is not claimed by the property.",
          "DESIGN.md §3 C14"),
+ "C10": ("exhaustive enumeration of restriction strings and derivation chains vs. big-integer interval sets",
+         "For all 8 integer types, string length and decimal64 (quick: fraction-digits 1,2,9,17,18; thorough: all 18): every restriction string with <= 2 parts over a boundary grid, 3 parts over a core grid, layout variants and syntactic faults, every depth-2 and depth-3 derivation chain of them, through module text + Process and through ParseRangesInt/ParseRangesDecimal, compared with math/big interval sets (exact written set, sorted/disjoint/coalesced, subset of the parent at every step; must-reject and must-accept classes).",
+         "Trusted: the interval reference (ref/num). Grids stand in for the numeric domains. Unsorted/overlapping part layouts (RFC-invalid but tolerated by the library) may go either way but must denote the written set when accepted.",
+         "DESIGN.md §3 C10"),
 }
 pending_reason = "check not built yet in this session (see DESIGN.md §12 build order); it will be claimed once its harness exists and is quiet on the unchanged tree"
 not_applicable_reasons = {}
